@@ -20,7 +20,7 @@ S = "<secret>"  # marker for a secret leaf (PrivVal(6))
 ARG_SHAPES = [
     3, -2, True, False, 2.5, -0.25, "txt", None, S,
     [1, 2], (4, 2.5), [True, 3], [2.5, 1], {"a": 5, "b": 1.5}, {"k": [1, (2, 0.5)]}, [S, 4], (None, "x", 7),
-    [[1, 2], [3, 4]], ([0.5], {"z": 2}), [], {},
+    [[1, 2], [3, 4]], ([0.5], {"z": 2}), [], {}, {"width": 3, "height": 5}, {"z": 1.5, "m": [2, {"b": 7, "a": 8}]},
 ]
 BODIES = ["identity", "product", "compare", "constant", "mixed", "first_twice", "same_object", "shared_constant"]
 
@@ -61,7 +61,7 @@ def body(name):
             return (x, {"again": x}, [x])       # one wire object published three times
         if name == "shared_constant":
             return [a ** 0, a, a ** 1]          # a**0 is the library's shared constant, a**1 is a itself
-        return {"s": a + 1, "t": [b * 2, "str", None], "u": a <= b, "c": 9}
+        return {"s": a + 1, "t": [b * 2, "str", None], "u": a <= b, "c": 9, "a": a * 3}    # keys deliberately not in sorted order
     return fn
 
 
